@@ -39,7 +39,7 @@ CLASS_CHURN = ["removed", "value", "function"]
 def n_runs(tier):
     if os.environ.get("VERIF_RUNS"):
         return int(os.environ["VERIF_RUNS"])
-    return 2400 if tier == "quick" else 150000
+    return 2400 if tier == "quick" else 60000
 
 
 def shrink_hint(plan):
